@@ -33,7 +33,10 @@ type IfaceV struct { // interface with known dynamic type
 	typ types.Type
 	val Value
 }
-type StructV struct{ fields []Value }
+type StructV struct {
+	fields []Value
+	src    int // id of the cell the struct value was loaded from (0: built otherwise)
+}
 type TupleV struct{ elems []Value }
 
 func (v Top) vstr() string {
@@ -134,7 +137,7 @@ func valueKey(v Value) string {
 	case IfaceV:
 		return "i:" + x.typ.String() + ":" + valueKey(x.val)
 	case StructV:
-		s := "s{"
+		s := fmt.Sprintf("s%d{", x.src)
 		for _, f := range x.fields {
 			s += valueKey(f) + ","
 		}
